@@ -17,6 +17,12 @@ CHECKS = {
          'Every interleaving of up to 3 signals with every controller phase and every combination of refused/ignored restore writes in the model; the real controllers are cancelled at every phase with injected driver outcomes, the real daemon is killed with 1-3 real signals; the final registers of every run are checked.'),
  'C04': (MC, '6 (C04)', 'TLC closure of MC_C04 (cycle closed through exact direct / rate-limited / default-PID loop models, arbitrary prior curve trajectories) + TLC trace validation (exact loop conformance, settle/steady/step formulas) of real controllers under the fake clock',
          'Settling bound K(alg), steady value, step bound, monotone approach and bounded PID integral hold in every state of the closed model (all histories over {0,c,255}); the real loops conform step by step to the exact model.'),
+ 'C09': (MC, '6 (C09)', 'TLC exhaustive check of Daemon.tla with fault actions (every placement of up to 2 faults) + TLC monitoring of real closed loops (sensor + monitor + curve + controller.Run + plant) with enumerated injected faults, run in child processes so that a crash is an observation',
+         'All single faults (kind x backend combination x curve type x cycle index) in the quick tier, plus pairs in the thorough tier; no-crash and continue-or-hand-back evaluated on every recorded state.'),
+ 'C15': (MC, '6 (C15)', 'TLC exhaustive check of Daemon.tla over all start/stop/reset/init sequences + TLC monitoring of the real controller.Run restarted on one bbolt database with CLI bodies in between',
+         'Sweeps and RPM-curve measurements between process start and first regulation cycle are counted from hook events; reuse, config-map-no-sweep and at-most-once hold in every model state and on every recorded history. The README promise for minPwm+maxPwm is a recorded known finding (D10).'),
+ 'C16': (MC, '6 (C16)', 'TLC exhaustive check of Daemon.tla (mutex, all interleavings of 2-3 fans) + TLC monitoring of real controllers of 2-4 fans in real time (option false) and in a bubble (option true, overlap observed)',
+         'Mutual exclusion of whole initialisation sequences over all interleavings in the model; real schedules with random start delays and plants of differing settle times.'),
  'C10': (MC, '6 (C10)', 'TLC exhaustive exact-arithmetic model MC_C10 (smoothing x plant thresholds x windows) + TLC trace validation of real controllers behind stalling plants',
          'Bounded-response (12n+2 polls), step-by-step progress and termination checked exhaustively on the exact model and on every recorded real step.'),
 }
